@@ -60,6 +60,7 @@ impl Case {
         let cfg = match property {
             "C16" => WorldCfg { min_k: wr.below(3) as u16, max_extra_k: 1, max_ctx: 2 },
             "C17" => WorldCfg { min_k: 0, max_extra_k: 0, max_ctx: 0 },
+            _ if model.is_some() => WorldCfg { min_k: wr.range(1, 2) as u16, max_extra_k: 0, max_ctx: 3 },
             _ => WorldCfg { min_k: wr.range(1, 3) as u16, max_extra_k: 1, max_ctx: 4 },
         };
         let world = match model {
